@@ -117,6 +117,29 @@ func famC13(g *Gen, o *Out, n int, thorough bool) {
 			k := g.pick(len(arch) + 1)
 			emit(arch[:k], "truncated")
 		}
+		// cuts around every length prefix and inside CIDs (which read fails decides the verdict), as a
+		// file truncation and, for CARv2, as a window that ends there (data size shrunk in the header)
+		{
+			base := 0
+			if ver == 2 {
+				base = int(leU64(arch[27:35]))
+			}
+			cuts := sectionCuts(arch, base, pend)
+			if !thorough && len(cuts) > 40 {
+				cuts = cuts[len(cuts)-40:]
+			}
+			for _, k := range cuts {
+				if k <= base || k >= pend {
+					continue
+				}
+				emit(arch[:k], "cut-at-prefix")
+				if ver == 2 {
+					m := append([]byte{}, arch...)
+					putLeU64(m[35:43], uint64(k-base))
+					emit(m, "window-ends-at-prefix")
+				}
+			}
+		}
 		// corpus (fixed C13/D19, D20): inner-header version changed; last section's length prefix enlarged
 		{
 			base := 0
@@ -147,5 +170,11 @@ func famC13(g *Gen, o *Out, n int, thorough bool) {
 		} else {
 			emit(arch[:pend], "v2-no-index-bytes")
 		}
+	}
+}
+
+func putLeU64(b []byte, x uint64) {
+	for i := 0; i < 8; i++ {
+		b[i] = byte(x >> (8 * i))
 	}
 }
